@@ -25,17 +25,23 @@ ASSUMPTIONS = [
     "data are integer valued and bounded (|entry| <= 2^20 in stored vectors) so that IEEE arithmetic is exact; rounding is not covered",
     "vectors are float64 / complex128 arrays (or Python lists / scalars of floats); integer-dtype vectors are not generated",
     "the oracle checks dense semantics only where the dense numpy operation itself is defined (conforming sizes, indices in range)",
-    "known residual defect excluded from the oracle's TYPE check only (values still checked): a carrier whose dtype is complex "
-    "while no stored vector is complex loses the complex type under copy/neg/T/conj/scalar*/slicing/+/+= "
+    "OPEN KNOWN FINDING key=dyad-dtype-lost-without-stored-complex-vector: a carrier whose dtype is complex while no stored "
+    "vector is complex loses the complex type under copy/neg/T/conj/scalar*/slicing/+/+= "
     "(corpus/defects/open_c15_dtype_lost_on_copy.py); likewise the type of a complex scalar / matrix operand is lost when the "
-    "carrier stores no dyad and for `D + 0j` (corpus/defects/open_c15_dtype_lost_no_dyads.py)",
+    "carrier stores no dyad and for `D + 0j` (corpus/defects/open_c15_dtype_lost_no_dyads.py). The oracle PERFORMS the type check "
+    "on these inputs and tags a lost complex type of exactly this class with the finding key (KNOWN-FINDING, exit 0); values are "
+    "always checked; any other deviation (also a type deviation outside the class or in the other direction) is a violation",
     "non-batch contract() returns a number typed by the stored vectors (Python float 0.0 without dyads): only its value is checked",
     "batch-mode contract() goes through numpy.einsum, which silently broadcasts a dimension of size 1 against a non-conforming "
     "size (modelled; not a dense-defined input, so the oracle skips it)",
-    "excluded input classes (model comparison kept): D[:, :] = 0 is a no-op in the code (corpus/defects/open_c15_setitem_all_noop.py); "
+    "excluded input classes (model comparison kept): "
     "2-D index arrays combined with a slice; index arrays of different (broadcastable) shapes; D + nonzero scalar (NotImplementedError by design); "
     "carriers with an unset dimension (-1) are 'a zero matrix of any shape': shape/type not compared, values are",
 ]
+
+FINDING_KEY = "dyad-dtype-lost-without-stored-complex-vector"   # open entry of KNOWN_FINDINGS.txt
+MAX_KNOWN_REPORTED = 3   # tagged witnesses handed to ctx.oracle_fail per run (the rest is only counted): the slots of
+#                          ctx.oracle_failures must stay free for any OTHER deviation
 
 LIMIT = 2 ** 20      # stop a program when a stored entry exceeds this (one more product/sum stays exact in float64)
 MAXDY = 24           # cap on the number of stored dyads of one carrier
@@ -317,15 +323,24 @@ class Machine:
         self.prog = []
         self.outs = []
         self.created = []   # register created by instruction k (or None)
-        self.fails = []     # (what, k)
+        self.fails = []     # (what, k, finding key or None)
         self.overflow = False
 
     def br(self, name):
         if self.ctx is not None:
             self.ctx.branch(name)
 
-    def fail(self, what, k):
-        self.fails.append((what, k))
+    def fail(self, what, k, key=None):
+        self.fails.append((what, k, key))
+
+    def type_fail(self, what, k, in_class, lost):
+        """a complex/real type deviation: tagged with the open finding's key iff the instruction is in the finding's input
+        class AND the deviation is a LOST complex type (result real, dense complex)"""
+        if in_class and lost:
+            self.br("oracle.known_finding_type_lost")
+            self.fail(what, k, FINDING_KEY)
+        else:
+            self.fail(what, k)
 
     # -- helpers -----------------------------------------------------------------------------
     def _sync(self, r):
@@ -430,6 +445,8 @@ class Machine:
                 D[i0, i1] = val
             if A is None:
                 exp = ("free",)
+            elif ins["zero"] and is_null(i0) and is_null(i1):
+                exp = ("val", np.zeros_like(A))      # D[:, :] = 0 (repaired by 9b72248: all dyads are dropped)
             elif ins["zero"] and (is_null(i0) != is_null(i1)):
                 if is_null(i1) and idx_valid(i0, A.shape[0]):
                     R = A.copy()
@@ -685,7 +702,8 @@ class Machine:
 
         # ---- oracle -------------------------------------------------------------------------
         changed = target if target is not None else newreg
-        can_type = pre_tok and not pre_loose and not pre_free and not special_skip
+        in_class = pre_loose or (not pre_tok) or special_skip   # input class of the open finding FINDING_KEY
+        can_type = not pre_free                                  # unset shape: no dense type to compare with
         if res[0] == "err":
             if exp[0] == "val":
                 self.fail(f"{op}: exception on an input for which the dense operation is defined: {res[2]}", k)
@@ -714,8 +732,9 @@ class Machine:
             E = exp[1]
             self.br("oracle.checked." + op)
             if not can_type:
-                self.br("oracle.type_skipped_loose_dtype" if (pre_loose or not pre_tok) else
-                        ("oracle.type_skipped_free" if pre_free else "oracle.type_skipped_operand_type_lost"))
+                self.br("oracle.type_skipped_free")
+            elif in_class:
+                self.br("oracle.type_checked_in_finding_class")
             if changed is not None:
                 Dn = regs[changed]
                 if _free(Dn):
@@ -736,8 +755,9 @@ class Machine:
                             self.fail(f"{op}: todense of the result differs from the dense computation: {T.tolist()} vs {E.tolist()}", k)
                         tmatch = bool(Dn.iscomplex()) == bool(np.iscomplexobj(E)) and bool(np.iscomplexobj(T)) == bool(Dn.iscomplex())
                         if can_type and not tmatch:
-                            self.fail(f"{op}: result is {'complex' if Dn.iscomplex() else 'real'} (todense dtype {T.dtype}) but dense semantics gives dtype {E.dtype}", k)
-                        self._set_dense(changed, np.array(E), can_type)
+                            lost = (not Dn.iscomplex()) and (not np.iscomplexobj(T)) and bool(np.iscomplexobj(E))
+                            self.type_fail(f"{op}: result is {'complex' if Dn.iscomplex() else 'real'} (todense dtype {T.dtype}) but dense semantics gives dtype {E.dtype}", k, in_class, lost)
+                        self._set_dense(changed, np.array(E), False)
             elif op == "contract":
                 Ev, batch, ecplx = exp[1], exp[2], exp[3]
                 if tuple(np.shape(result_arr)) != tuple(np.shape(Ev)):
@@ -745,7 +765,8 @@ class Machine:
                 elif not np.array_equal(np.asarray(result_arr), np.asarray(Ev)):
                     self.fail(f"contract: value {np.asarray(result_arr).tolist()} but dense semantics gives {np.asarray(Ev).tolist()}", k)
                 if batch and can_type and bool(np.iscomplexobj(result_arr)) != ecplx:
-                    self.fail(f"contract: batch result dtype {np.asarray(result_arr).dtype} but dense semantics is {'complex' if ecplx else 'real'}", k)
+                    self.type_fail(f"contract: batch result dtype {np.asarray(result_arr).dtype} but dense semantics is {'complex' if ecplx else 'real'}", k,
+                                   in_class, ecplx and not np.iscomplexobj(result_arr))
             else:
                 Ra = np.asarray(result_arr)
                 if tuple(Ra.shape) != tuple(np.shape(E)):
@@ -753,7 +774,8 @@ class Machine:
                 elif not np.array_equal(Ra, np.asarray(E)):
                     self.fail(f"{op}: value {Ra.tolist()} but dense semantics gives {np.asarray(E).tolist()}", k)
                 if can_type and bool(np.iscomplexobj(Ra)) != bool(np.iscomplexobj(E)):
-                    self.fail(f"{op}: result dtype {Ra.dtype} but dense semantics gives {np.asarray(E).dtype}", k)
+                    self.type_fail(f"{op}: result dtype {Ra.dtype} but dense semantics gives {np.asarray(E).dtype}", k,
+                                   in_class, bool(np.iscomplexobj(E)) and not np.iscomplexobj(Ra))
 
         # ---- no mutation of anything but the in-place target ---------------------------------
         for i in range(len(self.snaps)):
@@ -1016,8 +1038,8 @@ def g_setitem(rng, mach, r, malformed):
         py["val"] = rng.choice(["1", "-2", "h"])
     elif malformed and 0.6 <= w < 0.9:
         i0, i1 = g_index(rng, m, kinds=("int", "arr", "sl")), g_index(rng, n, kinds=("int", "arr", "sl"))
-    elif malformed:
-        i0, i1 = null, null    # D[:, :] = 0 : accepted by the code, does nothing (open defect; oracle excluded)
+    elif malformed or rng.random() < 0.08:
+        i0, i1 = null, null    # D[:, :] = 0 : drops all dyads (repaired by 9b72248)
     return {"op": "setitem", "r": r, "i0": i0, "i1": i1, "zero": zero, "py": py}
 
 
@@ -1322,7 +1344,7 @@ def fixed_programs():
               {"op": "getitem", "r": 0, "i0": {"k": "arr", "s": [2], "d": [0, 1]}, "i1": {"k": "arr", "s": [3], "d": [0, 1, 1]}},         # IndexError
               {"op": "setitem", "r": 0, "i0": {"k": "int", "i": 0}, "i1": NULL, "zero": False, "py": {"val": "1"}},                         # ValueError
               {"op": "setitem", "r": 0, "i0": {"k": "int", "i": 0}, "i1": {"k": "int", "i": 0}, "zero": True, "py": {"val": "0"}},          # IndexError
-              {"op": "setitem", "r": 0, "i0": NULL, "i1": NULL, "zero": True, "py": {"val": "0"}},                                           # no-op
+              {"op": "setitem", "r": 0, "i0": NULL, "i1": NULL, "zero": True, "py": {"val": "0"}},                                           # clears all dyads
               {"op": "contract_multi", "r": 0, "mats": [None], "py": {}},                                                                     # AttributeError
               {"op": "contract_multi", "r": 0, "mats": [], "py": {}},                                                                         # IndexError
               {"op": "addA", "r": 0, "a": _A([1, 2, 3])}])                                                                                   # ValueError
@@ -1354,12 +1376,12 @@ def _witness(mach, k):
 
 
 def oracle_program(prog):
-    """run the oracle on a JSON program; returns the list of (what, k)"""
+    """run the oracle on a JSON program; returns the list of (what, k, finding key or None)"""
     mach = Machine(None)
     try:
         mach.run(prog)
     except Exception as e:  # noqa
-        return [(f"harness could not run the program: {type(e).__name__}: {e}", len(mach.prog) - 1)], mach
+        return [(f"harness could not run the program: {type(e).__name__}: {e}", len(mach.prog) - 1, None)], mach
     return mach.fails, mach
 
 
@@ -1400,24 +1422,43 @@ def shrink(prog, pred, budget=400):
     return prog
 
 
-def _fails_like(what):
+def _fails_like(what, key=None):
+    """same kind of failure: same instruction head AND same known-finding tag (a shrink must not turn a fresh deviation
+    into a witness of the known finding or vice versa)"""
     head = what.split(":")[0]
 
     def pred(p):
         f, _ = oracle_program(p)
-        return any(w.split(":")[0] == head for w, _ in f)
+        return any(w.split(":")[0] == head and kk == key for w, _, kk in f)
     return pred
 
 
-def _report_fail(ctx, mach, what, k, nshrunk):
+def _first_like(fails, what, key):
+    head = what.split(":")[0]
+    for w, _, kk in fails:
+        if w.split(":")[0] == head and kk == key:
+            return w
+    return None
+
+
+def _report_fail(ctx, mach, what, k, nshrunk, key=None):
     prog = mach.prog[:k + 1]
+    if key is not None:
+        # witness of the OPEN KNOWN FINDING: counted, only the first few are handed over (tagged), never shrunk
+        ctx.branch("oracle.known_finding_witnesses")
+        n = getattr(ctx, "_c15_known_reported", 0)
+        if n < MAX_KNOWN_REPORTED:
+            ctx._c15_known_reported = n + 1
+            ctx.oracle_fail(what, {"prog": prog}, key=key)
+        return
     if nshrunk[0] < 5:
         nshrunk[0] += 1
         try:
-            small = shrink(prog, _fails_like(what))
+            small = shrink(prog, _fails_like(what, None))
             f, _ = oracle_program(small)
-            if f:
-                prog, what = small, f[0][0]
+            w2 = _first_like(f, what, None)
+            if w2:
+                prog, what = small, w2
         except Exception:  # noqa
             pass
     ctx.oracle_fail(what, {"prog": prog})
@@ -1453,8 +1494,8 @@ def correspondence(ctx):
         for j, (mach, mres) in enumerate(zip(machs, res)):
             p = pid + j
             total_instr += len(mach.prog)
-            for what, k in mach.fails:
-                _report_fail(ctx, mach, what, k, nshrunk)
+            for what, k, fkey in mach.fails:
+                _report_fail(ctx, mach, what, k, nshrunk, fkey)
             if "ok" not in mres:
                 ctx.disagree("prog", {"prog": mach.prog}, "ran", mres, "model error")
                 continue
@@ -1520,11 +1561,16 @@ def search(ctx, disagreements):
             continue
         seen.add(key)
         fails, _ = oracle_program(prog)
-        if fails:
-            what = fails[0][0]
-            small = shrink(prog[:fails[0][1] + 1], _fails_like(what))
+        fresh = [f for f in fails if f[2] is None]
+        if fresh:
+            what, kf, _ = fresh[0]
+            small = shrink(prog[:kf + 1], _fails_like(what, None))
             f2, _ = oracle_program(small)
-            found.append({"what": f2[0][0] if f2 else what, "witness": {"prog": small if f2 else prog}})
+            w2 = _first_like(f2, what, None)
+            found.append({"what": w2 or what, "witness": {"prog": small if w2 else prog}})
+        elif fails:     # only witnesses of the open known finding
+            what, kf, fkey = fails[0]
+            found.append({"what": what, "witness": {"prog": prog[:kf + 1]}, "finding_key": fkey})
         if len(found) >= 3:
             break
     found.sort(key=lambda w: len(json.dumps(w["witness"])))
@@ -1546,4 +1592,48 @@ def replay(ctx, data):
     if not prog:
         return {"still_failing": False, "note": "replay file names no failing input (see no_longer_checks)"}
     fails, _ = oracle_program(prog)
-    return {"still_failing": bool(fails), "what": fails[0][0] if fails else None}
+    fresh = [f for f in fails if f[2] is None]
+    pick = fresh[0] if fresh else (fails[0] if fails else None)
+    return {"still_failing": bool(fails), "what": pick[0] if pick else None,
+            "finding_key": (pick[2] if pick else None)}
+
+
+# ----------------------------------------------------------------------------------------------
+# open known findings: probes replayed on the real code by harness/main.py
+# ----------------------------------------------------------------------------------------------
+def probe_dtype_lost(ctx):
+    """the logic of corpus/defects/open_c15_dtype_lost_on_copy.py and open_c15_dtype_lost_no_dyads.py on the real code:
+    returns a short description while the complex type is still lost somewhere, else None"""
+    DC = _pm().DyadCarrier
+    bad = []
+
+    def chk(name, got_complex, want_complex):
+        if bool(got_complex) != bool(want_complex):
+            bad.append(name)
+
+    # (1) complex dtype, no stored complex vector: Z = A*0
+    A = DC([np.array([1j, 0, 0])], [np.array([0., 2.])])
+    Z = A * 0
+    Zd = Z.todense()
+    R = DC([np.array([1., 2, 3])], [np.array([1., -1])])
+    W = R.copy()
+    W += Z
+    for name, got, want in (("Z.copy()", Z.copy(), Zd.copy()), ("-Z", -Z, -Zd), ("Z.T", Z.T, Zd.T), ("2*Z", 2 * Z, 2 * Zd),
+                            ("Z[0:2,:]", Z[0:2, :], Zd[0:2, :]), ("Z.conj()", Z.conj(), Zd.conj()),
+                            ("Z+R", Z + R, Zd + R.todense()), ("R+Z", R + Z, R.todense() + Zd), ("R+=Z", W, R.todense() + Zd)):
+        chk(name, got.iscomplex() and np.iscomplexobj(got.todense()), np.iscomplexobj(want))
+    # (2) the type of a complex operand is lost when no dyad is stored; D + 0j
+    E = DC(shape=(2, 2))
+    M = np.array([[1j, 0], [0, 1]])
+    C = DC([np.array([1j, 1])], [np.array([1., 1.])])
+    D = DC([np.array([1., 2.])], [np.array([1., 1.])])
+    Ed = E.todense()
+    for name, got, want in (("E*1j", E * 1j, Ed * 1j), ("1j*E", 1j * E, 1j * Ed), ("E@M", E @ M, Ed @ M), ("M@E", M @ E, M @ Ed),
+                            ("E@C", E @ C, Ed @ C.todense()), ("D+0j", D + 0j, D.todense() + 0j)):
+        chk(name, got.iscomplex(), np.iscomplexobj(want))
+    if not bad:
+        return None
+    return "complex type still lost in: " + ", ".join(bad)
+
+
+FINDING_PROBES = {FINDING_KEY: probe_dtype_lost}
